@@ -18,7 +18,8 @@ ASSUMPTIONS = ["parsec_barrier_wait is a counting no-op stub (one stream)",
                "COMPARISON_VAL's uintptr_t round trip is rewritten to char* arithmetic in an overlay copy of parsec_config_bottom.h "
                "(same address on a flat address space); the *_rawcmp queries (thorough) run the unmodified macro"]
 BOUNDS = {"quick": {"tasks": "3..4", "schedule calls": "2..3", "ring": "1..3", "priorities": "-1..1 symbolic",
-                    "selects between calls": "0..N1 symbolic", "distance (spq)": "0..2, enumerated weak orderings"},
+                    "selects between calls": "0..N1 symbolic", "distance (spq)": "0..2, enumerated weak orderings",
+                    "re-schedule": "first selected task (enumerated) re-scheduled with distance+1 (ap, spq)"},
           "thorough": {"tasks": "3..6", "schedule calls": "2..3", "ring": "1..3", "priorities": "-2..2 symbolic",
                        "selects between calls": "0..N1 symbolic", "distance (spq)": "0..2, enumerated weak orderings"}}
 
@@ -41,7 +42,7 @@ WEAK3 = [(0, 0, 0), (0, 0, 1), (0, 1, 0), (1, 0, 0), (0, 1, 1), (1, 0, 1), (1, 1
          (0, 1, 2), (0, 2, 1), (1, 0, 2), (1, 2, 0), (2, 0, 1), (2, 1, 0)]   # the 13 weak orderings of three calls
 
 
-def _q(m, shape, pr, dist, tiers, raw=False):
+def _q(m, shape, pr, dist, tiers, raw=False, resched=None):
     n1, n2, n3 = shape
     name = "%s_%d%d%d" % (m, n1, n2, n3)
     defs = ["SCHED_" + m, "N1=%d" % n1, "N2=%d" % n2, "N3=%d" % n3, "PMIN=%d" % pr[0], "PMAX=%d" % pr[1]]
@@ -50,8 +51,12 @@ def _q(m, shape, pr, dist, tiers, raw=False):
         defs += ["D1=%d" % dist[0], "D2=%d" % dist[1], "D3=%d" % dist[2]]
     if raw:
         name += "_rawcmp"
+    if resched is not None:
+        name += "_rs%d" % resched
+        defs.append("RESCHED=%d" % resched)
     info = {"symbolic": ["priority of every task (%d..%d)" % pr, "number of selects between the first two schedule calls (0..N1)"],
             "enumerated": ["ring sizes N1,N2,N3 = %d,%d,%d" % shape, "scheduler module " + m] +
+                          (["the first selected task (enumerated: task %d) is re-scheduled with its distance + 1 (as __parsec_task_progress does)" % resched] if resched is not None else []) +
                           (["distances of the schedule calls = %d,%d,%d" % dist] if dist is not None else []),
             "stubs": ["parsec_barrier_wait -> counting no-op", "parsec_class_initialize -> static-table equivalent",
                       "parsec_obj_destruct(_and_free) -> run destructors (+free)"] +
@@ -80,6 +85,13 @@ def queries(ctx):
         qs.append(_q("spq", (2, 1, 1), (-1, 1), d, both if quick else th))
         qs.append(_q("spq", (2, 2, 1), (-2, 2), d, th))
     qs.append(_q("spq", (2, 1, 0), (-1, 1), (1, 0, 0), th, raw=True))
+    # re-scheduling of a selected task with a larger distance (spq: it moves to a later bucket; ap ignores the distance)
+    for r in (0, 1):
+        qs.append(_q("ap", (2, 1, 0), (-1, 1), None, both if r == 0 else th, resched=r))
+        for d in WEAK2:
+            qs.append(_q("spq", (2, 1, 0), (-1, 1), d, both if (d, r) in (((0, 1, 0), 1), ((1, 1, 0), 0)) else th, resched=r))
+        for d in [(0, 0, 0), (0, 1, 0), (1, 0, 1), (2, 0, 1), (1, 2, 0)]:
+            qs.append(_q("spq", (2, 1, 1), (-1, 1), d, th, resched=r))
     return qs
 
 
@@ -114,7 +126,8 @@ MANIFEST = {
          "assignment of priorities (symbolic) to 3..6 tasks scheduled as 2..3 rings, with a symbolic number of selections in "
          "between, each select must return exactly the task a reference priority queue written in the harness would return "
          "(ap/spq: highest priority, FIFO among equals; ip: lowest priority; spq: smaller distance first and the reported "
-         "distance is the scheduled one), every task exactly once, NULL when empty.",
+         "distance is the scheduled one), every task exactly once, NULL when empty; a selected task re-scheduled with a larger "
+         "distance is not returned by spq before the tasks pending at smaller distances.",
  "note": "single execution stream; spq distances enumerated over every weak ordering of the calls (values 0..2); class-table "
          "initialisation replaced by a static-table equivalent; COMPARISON_VAL's integer round trip rewritten to char* arithmetic "
          "(checked against the unmodified macro in the thorough tier); ip tie order and ip distance!=0 outside the claim.",
